@@ -201,3 +201,5 @@ Print Assumptions C05_full_compile_stmt_correct_source.
 Print Assumptions C05_full_compile_fn_tree.
 Print Assumptions C05_full_compile_fn_correct_nocapture.
 Print Assumptions C05_full_compile_fn_tree_source.
+Print Assumptions C05_lparse_program_lwf.
+Print Assumptions C05_lwf_lok.
